@@ -55,13 +55,15 @@ theorem decU32sLE_enc (xs : List Nat) (r : Bytes) (hx : ∀ x ∈ xs, x < 2 ^ 32
     decU32sLE (u32sLE xs ++ r) = some (xs, r) := by
   unfold decU32sLE u32sLE
   rw [List.append_assoc]
-  exact decLEs 4 xs r (fun x hx' => by have := hx x hx'; have p4 : (256 : Nat) ^ 4 = 2 ^ 32 := by decide; omega) hl
+  have p4 : (256 : Nat) ^ 4 = 2 ^ 32 := by decide
+  exact decLEs 4 xs r (fun x hx' => by rw [p4]; exact hx x hx') hl
 
 theorem decU64sLE_enc (xs : List Nat) (r : Bytes) (hx : ∀ x ∈ xs, x < 2 ^ 64) (hl : xs.length < 2 ^ 32) :
     decU64sLE (u64sLE xs ++ r) = some (xs, r) := by
   unfold decU64sLE u64sLE
   rw [List.append_assoc]
-  exact decLEs 8 xs r (fun x hx' => by have := hx x hx'; have p8 : (256 : Nat) ^ 8 = 2 ^ 64 := by decide; omega) hl
+  have p8 : (256 : Nat) ^ 8 = 2 ^ 64 := by decide
+  exact decLEs 8 xs r (fun x hx' => by rw [p8]; exact hx x hx') hl
 
 /-! ### lib/record -/
 
@@ -84,36 +86,44 @@ structure ColValWF (c : ColValM) : Prop where
   offs : c.offs.length < 2 ^ 32
   off : ∀ x ∈ c.offs, x < 2 ^ 32
 
-theorem flatMap_le_length (k : Nat) (xs : List Nat) : (xs.flatMap (le k)).length = xs.length * k := by
-  induction xs with
-  | nil => rfl
-  | cons x xs ih => simp [ih]; rw [Nat.add_mul]; omega
+theorem flatMap_le_length (k : Nat) : ∀ xs : List Nat, (xs.flatMap (le k)).length = xs.length * k
+  | [] => by simp
+  | x :: xs => by
+    have ih := flatMap_le_length k xs
+    simp only [List.flatMap_cons, List.length_append, le_length, ih, List.length_cons]
+    rw [Nat.add_mul]; omega
 
 theorem colVal_size (c : ColValM) : (marshalColVal c).length = colValSize c := by
-  simp [marshalColVal, colValSize, bytes32, u32sLE, flatMap_le_length]; omega
+  simp only [marshalColVal, colValSize, bytes32, u32sLE, List.length_append, i64_length, be_length,
+    flatMap_le_length]
+  omega
+
+/-- parser lemma on abstract inputs. -/
+theorem unmarshalColVal_of (bs r0 r1 r2 r3 r4 r5 : Bytes) (len nil off : W) (val bm : Bytes) (offs : List Nat)
+    (h0 : readI64 bs = some (len, r0)) (h1 : readI64 r0 = some (nil, r1)) (h2 : readI64 r1 = some (off, r2))
+    (h3 : decBytes r2 = some (val, r3)) (h4 : decBytes r3 = some (bm, r4))
+    (h5 : decU32sLE r4 = some (offs, r5)) :
+    unmarshalColVal bs = some ⟨len, nil, off, val, bm, offs⟩ := by
+  unfold unmarshalColVal
+  simp only [h0, h1, h2, h3, h4, h5]
 
 /-- **`record.ColVal`** — every field: `Len`, `NilCount`, `BitMapOffset` (any int), `Val`, `Bitmap`,
 `Offset`. -/
 theorem colval_codec_roundtrip (c : ColValM) (h : ColValWF c) :
     unmarshalColVal (marshalColVal c) = some c := by
-  unfold unmarshalColVal marshalColVal
-  rw [readI64_i64]; simp only
-  rw [readI64_i64]; simp only
-  rw [readI64_i64]; simp only
-  rw [decBytes_bytes32 _ _ h.val]; simp only
-  rw [decBytes_bytes32 _ _ h.bitmap]; simp only
-  have := decU32sLE_enc c.offs [] h.off h.offs
-  rw [List.append_nil] at this
-  rw [this]
+  have h5 := decU32sLE_enc c.offs [] h.off h.offs
+  rw [List.append_nil] at h5
+  exact unmarshalColVal_of (marshalColVal c) _ _ _ _ _ _ c.len c.nilCount c.bmOff c.val c.bitmap c.offs
+    (by unfold marshalColVal; exact readI64_i64 _ _) (readI64_i64 _ _) (readI64_i64 _ _)
+    (decBytes_bytes32 _ _ h.val) (decBytes_bytes32 _ _ h.bitmap) h5
 
 theorem readSub_enc {α : Type} (dflt : α) (un : Bytes → Option α) (msg r : Bytes) (a : α) (size : Nat)
     (hs : size = msg.length) (hl : msg.length < 2 ^ 32) (hne : msg ≠ []) (hu : un msg = some a) :
-    readSub dflt un (be 4 size ++ msg ++ r) = some (a, r) := by
-  unfold readSub
+    readSub dflt un (be 4 size ++ (msg ++ r)) = some (a, r) := by
+  have h := decBytes_bytes32 msg r hl
+  rw [bytes32, List.append_assoc] at h
   subst hs
-  have := decBytes_bytes32 msg r hl
-  unfold bytes32 at this
-  rw [this]
+  rw [readSub, h]
   simp only [hne, if_false, hu, Option.map_some]
 
 structure RecordWF (rec : RecordM) : Prop where
@@ -121,6 +131,16 @@ structure RecordWF (rec : RecordM) : Prop where
   nc : rec.cols.length < 2 ^ 32
   field : ∀ f ∈ rec.schema, f.name.length < 2 ^ 16
   col : ∀ c ∈ rec.cols, ColValWF c ∧ colValSize c < 2 ^ 32
+
+/-- parser lemma on abstract inputs. -/
+theorem unmarshalRecord_of (bs r0 r1 r2 r3 : Bytes) (nf nc : Nat) (fs : List FieldM) (cs : List ColValM)
+    (hne : bs ≠ []) (h0 : readBE 4 bs = some (nf, r0))
+    (h1 : readN (readSub ⟨[], 0#64⟩ unmarshalField) nf r0 = some (fs, r1))
+    (h2 : readBE 4 r1 = some (nc, r2))
+    (h3 : readN (readSub ⟨0#64, 0#64, 0#64, [], [], []⟩ unmarshalColVal) nc r2 = some (cs, r3)) :
+    unmarshalRecord bs = some ⟨fs, cs⟩ := by
+  unfold unmarshalRecord
+  simp only [hne, if_false, h0, h1, h2, h3]
 
 /-- **a record round-trips on the wire**: schema and every column value, the length prefixes being
 the `Size()` of each part. -/
@@ -135,7 +155,7 @@ theorem record_codec_roundtrip (rec : RecordM) (h : RecordWF rec) :
         (field_size f).symm (by rw [field_size]; have := h.field f hf; unfold fieldSize; omega)
         (by intro he; have := congrArg List.length he; rw [field_size] at this; simp [fieldSize] at this)
         (field_codec_roundtrip f (h.field f hf))
-      simpa using this)
+      rw [List.append_assoc]; exact this)
   have hc := readN_flatMap (readSub ⟨0#64, 0#64, 0#64, [], [], []⟩ unmarshalColVal)
     (fun c => be 4 (colValSize c) ++ marshalColVal c) id rec.cols []
     (fun c hc r => by
@@ -143,18 +163,13 @@ theorem record_codec_roundtrip (rec : RecordM) (h : RecordWF rec) :
         (colValSize c) (colVal_size c).symm (by rw [colVal_size]; exact (h.col c hc).2)
         (by intro he; have := congrArg List.length he; rw [colVal_size] at this; simp [colValSize] at this)
         (colval_codec_roundtrip c (h.col c hc).1)
-      simpa using this)
+      rw [List.append_assoc]; exact this)
   rw [List.map_id] at hf hc
   rw [List.append_nil] at hc
-  unfold unmarshalRecord marshalRecord
-  rw [if_neg (by intro he; have := congrArg List.length he; simp at this)]
-  rw [readBE_be_lt _ (by rw [p4]; exact h.nf)]
-  simp only
-  rw [hf]
-  simp only
-  rw [readBE_be_lt _ (by rw [p4]; exact h.nc)]
-  simp only
-  rw [hc]
+  exact unmarshalRecord_of (marshalRecord rec) _ _ _ _ rec.schema.length rec.cols.length rec.schema rec.cols
+    (by intro he; have := congrArg List.length he; simp [marshalRecord] at this)
+    (by unfold marshalRecord; exact readBE_be_lt _ (by rw [p4]; exact h.nf)) hf
+    (readBE_be_lt _ (by rw [p4]; exact h.nc)) hc
 
 example : marshalRecord ⟨[⟨[116], 1#64⟩], [⟨1#64, 0#64, 0#64, [5], [1], []⟩]⟩
     = [0, 0, 0, 1, 0, 0, 0, 11, 0, 1, 116, 0, 0, 0, 0, 0, 0, 0, 2, 0, 0, 0, 1, 0, 0, 0, 38,
@@ -172,7 +187,9 @@ theorem write_response_roundtrip (r : WriteRespM) (h : r.errCode < 2 ^ 16) :
   rw [readBE_be_lt _ (by rw [p2]; exact h)]
 
 theorem streamVar_size (s : StreamVarM) : (marshalStreamVar s).length = streamVarSize s := by
-  simp [marshalStreamVar, streamVarSize, u64sLE, flatMap_le_length]; omega
+  simp only [marshalStreamVar, streamVarSize, u64sLE, List.length_cons, List.length_append, be_length,
+    flatMap_le_length]
+  omega
 
 theorem streamVar_roundtrip (s : StreamVarM) (hx : ∀ x ∈ s.ids, x < 2 ^ 64) (hl : s.ids.length < 2 ^ 32) :
     unmarshalStreamVar (marshalStreamVar s) = some s := by
@@ -183,41 +200,45 @@ theorem streamVar_roundtrip (s : StreamVarM) (hx : ∀ x ∈ s.ids, x < 2 ^ 64) 
   cases s with
   | mk only ids => cases only <;> simp
 
+theorem readSVar_enc (v : Option StreamVarM) (r : Bytes)
+    (hv : ∀ s, v = some s → (∀ x ∈ s.ids, x < 2 ^ 64) ∧ s.ids.length < 2 ^ 29) :
+    readSVar (marshalSVarOpt v ++ r) = some (v, r) := by
+  cases v with
+  | none =>
+    have := decBytes_bytes32 [] r (by simp)
+    simp only [bytes32, List.length_nil, List.append_nil] at this
+    rw [readSVar, marshalSVarOpt, this]
+    simp
+  | some s =>
+    obtain ⟨h1, h2⟩ := hv s rfl
+    have hsz := streamVar_size s
+    have := decBytes_bytes32 (marshalStreamVar s) r (by rw [hsz]; unfold streamVarSize; omega)
+    rw [bytes32, hsz] at this
+    have hne : marshalStreamVar s ≠ [] := by
+      intro he; have := congrArg List.length he; rw [hsz] at this; simp [streamVarSize] at this
+    rw [readSVar, marshalSVarOpt, this]
+    simp only [hne, if_false, streamVar_roundtrip s h1 (by omega), Option.map_some]
+
+/-- parser lemma on abstract inputs. -/
+theorem unmarshalStreamReq_of (bs r0 r1 r2 pts : Bytes) (n : Nat) (vs : List (Option StreamVarM))
+    (hne : bs ≠ []) (h0 : decBytes bs = some (pts, r0)) (h1 : readBE 4 r0 = some (n, r1))
+    (h2 : readN readSVar n r1 = some (vs, r2)) : unmarshalStreamReq bs = some ⟨pts, vs⟩ := by
+  unfold unmarshalStreamReq
+  simp only [hne, if_false, h0, h1, h2]
+
 /-- **stream-write request**: the points and every stream variable (absent ones included). -/
 theorem stream_request_roundtrip (w : StreamReqM) (hp : w.points.length < 2 ^ 32)
     (hn : w.vars.length < 2 ^ 32)
     (hv : ∀ v ∈ w.vars, ∀ s, v = some s → (∀ x ∈ s.ids, x < 2 ^ 64) ∧ s.ids.length < 2 ^ 29) :
     unmarshalStreamReq (marshalStreamReq w) = some w := by
   have p4 : (256 : Nat) ^ 4 = 2 ^ 32 := by decide
-  unfold unmarshalStreamReq marshalStreamReq
-  rw [if_neg (by intro he; have := congrArg List.length he; simp [bytes32] at this)]
-  rw [decBytes_bytes32 _ _ hp]
-  simp only
-  rw [readBE_be_lt _ (by rw [p4]; exact hn)]
-  simp only
-  have := readN_flatMap
-    (fun b => match decBytes b with
-      | none => none
-      | some (sub, r) => if sub = [] then some (none, r) else (unmarshalStreamVar sub).map fun s => (some s, r))
-    (fun v : Option StreamVarM => match v with
-      | none => be 4 0
-      | some s => be 4 (streamVarSize s) ++ marshalStreamVar s) id w.vars []
-    (fun v hv' r => by
-      cases v with
-      | none =>
-        have := decBytes_bytes32 [] r (by simp)
-        simp only [bytes32, List.length_nil, List.append_nil] at this
-        simp [this]
-      | some s =>
-        obtain ⟨h1, h2⟩ := hv (some s) hv' s rfl
-        have hsz := streamVar_size s
-        have := decBytes_bytes32 (marshalStreamVar s) r (by rw [hsz]; unfold streamVarSize; omega)
-        simp only [bytes32, hsz] at this
-        have hne : marshalStreamVar s ≠ [] := by
-          intro he; have := congrArg List.length he; rw [hsz] at this; simp [streamVarSize] at this
-        simp only [List.append_assoc, this, hne, if_false, streamVar_roundtrip s h1 (by omega), Option.map_some, id])
-  rw [List.map_id, List.append_nil] at this
-  rw [this]
+  have h2 := readN_flatMap readSVar marshalSVarOpt id w.vars []
+    (fun v hv' r => readSVar_enc v r (hv v hv'))
+  rw [List.map_id, List.append_nil] at h2
+  exact unmarshalStreamReq_of (marshalStreamReq w) _ _ _ w.points w.vars.length w.vars
+    (by intro he; have := congrArg List.length he; simp [marshalStreamReq, bytes32] at this)
+    (by unfold marshalStreamReq; exact decBytes_bytes32 _ _ hp)
+    (readBE_be_lt _ (by rw [p4]; exact hn)) h2
 
 /-! ### lib/raftlog -/
 
